@@ -174,6 +174,26 @@ CDS_REPRESENTATIVES = [
 ]
 
 
+def cds_groups_with_score():
+    """cds(...) around a formula that holds a minscore: the parser accepts it (unlike minimum inside cds), and the statement gives
+    both cds and minscore a meaning for any formula - one single gene must satisfy it on its own, score included"""
+    score = ["score", False, "a", SCORE_T]
+    not_score = ["score", True, "a", SCORE_T]
+    b, not_b = ["id", False, "b"], ["id", True, "b"]
+    out = []
+    for neg in (False, True):
+        out.append(["cds", neg, ["and", [b, score]]])
+        out.append(["cds", neg, ["and", [b, not_score]]])
+        out.append(["cds", neg, ["or", False, [b, score]]])
+        out.append(["cds", neg, ["and", [not_b, score]]])
+    trees_ = [g for g in out if positive(g)]
+    for group in out:
+        for y in (["id", False, "c"], ["id", False, "b"]):
+            trees_.append(["and", [group, y]])
+            trees_.append(["or", False, [group, y]])
+    return trees_
+
+
 def _key(n):
     return repr(n)
 
